@@ -298,7 +298,8 @@ func (l *simListener) Accept() (net.Conn, error) {
 }
 
 func (l *simListener) Close() error {
-	Yield("listener.close")
+	// no yield point here: the pool closes its listener while holding a sync.Mutex, and a goroutine blocked on a
+	// sync.Mutex is not durably blocked, so parking the holder would keep the bubble from ever becoming quiescent
 	l.once.Do(func() { close(l.closed) })
 	return nil
 }
